@@ -90,6 +90,9 @@ func (f *Fact) Heavy(x int64) int64 {
 	h := f.H()
 	h.HeavyCalls++
 	h.Log = append(h.Log, fmt.Sprintf("heavy:%d", x))
+	if h.OnProbe != nil {
+		h.OnProbe("heavy", x, 0)
+	}
 	return HeavyOf(x)
 }
 
